@@ -100,6 +100,24 @@ CHECKS = {
   text="183 histories (quick; thorough ~1000): every base template alone, a third (thorough: all) of ordered pairs, and governance flows that really pass and execute (EVM params: EnableCreate off and one precompile deactivated; fee-market params with a base-fee activation height; ERC20 params) alone and followed by every base template once in effect. For EVERY boundary k of every history a replica is stopped after Commit k and a new Haqq is constructed on the database (same DB / key-by-key copy / twice). Compared with the reference: Info() height and app hash, a battery of 27 gRPC queries after every commit, every later ABCI response and app hash.",
   note="MemDB kept across the restart; torn writes inside a commit are not modelled. Software-upgrade plans cannot be exercised (the upgrade module panics by design for a scheduled plan whose handler is already in the binary).",
   design="DESIGN.md §3 C20"),
+ "C14": dict(
+  technique="explicit-state exploration: exhaustive enumeration of event sequences <= depth on virtual blocks (real BeginBlock/EndBlock) with a conservation oracle around every block boundary",
+  engine="E1",
+  text="From a fixture with bonded, unbonding and redelegating stake on two validators: every sequence <= 3 (thorough 4) over double-sign evidence for either validator (early infraction height, so unbonding and redelegation entries are slashed too), a 7-block downtime window, delegate / undelegate / redelegate, a vetoed proposal, a proposal without quorum and an under-funded proposal (deposits in two denominations, all three burn flags on), and plain blocks. Around every block boundary: supply of both denominations unchanged; the coins that left the bonded pool, not-bonded pool and gov account without reaching an account equal the growth of the community pool and of the distribution module account; every registered invariant holds.",
+  note="Coinomics off, community tax 0, zero fees. 'Burned' is derived by conservation, not from implementation figures. Virtual block boundary.",
+  design="DESIGN.md §3 C14"),
+ "C15": dict(
+  technique="bounded-exhaustive enumeration of block histories executed with real blocks; every registered invariant evaluated on the committed state after every block",
+  engine="E2",
+  text="903 histories (quick): every template alone, every ordered pair in consecutive blocks and in one block over 21 templates (bank, EVM incl. contract creation and multi-account dirtying, staking / distribution precompiles, staking messages, clawback vesting, DAO, liquidation + token-pair registration, ERC20 conversion, failing transactions, double-sign evidence, downtime, three governance flows with deposits); thorough adds all triples of base templates. After each of the ~4000 commits all 12 crisis-keeper invariant routes (bank supply / non-negative, staking pools / shares / power, distribution can-withdraw / reference-count / module-account, gov module-account) are evaluated.",
+  note="Invariants are evaluated between blocks on committed state. The E1 drivers C14 and C19 evaluate the same routes in their own states.",
+  design="DESIGN.md §3 C15"),
+ "C19": dict(
+  technique="bounded-exhaustive enumeration of block histories, each followed by an export -> InitChain on a fresh node -> export cycle with a leaf-by-leaf diff of the two genesis documents, a query battery and invariants",
+  engine="E2",
+  text="125 histories (quick): idle chain, every template (18 base + 3 governance flows) alone exported after settling and exported right after its block, a quarter (thorough: all) of ordered pairs, thorough: one chain of all templates. A's export is imported into a fresh Haqq by real InitChain + Commit, exported again and the two JSON documents are compared leaf by leaf (per module / field); 27 gRPC queries are compared on both nodes; each named module's exported state must pass its own ValidateGenesis; all invariants must hold on the imported node.",
+  note="ibc 09-localhost latest_height is the exporting height by definition and is excluded from the equality. ValidateGenesis of third-party modules (ibc's connection-localhost) is not demanded.",
+  design="DESIGN.md §3 C19"),
 }
 
 PENDING = {}
